@@ -15,8 +15,13 @@ abbrev TNum := Option Rat
 
 def pow10 (e : Int) : Rat := if e ≥ 0 then ((10 : Rat) ^ e.toNat) else 1 / ((10 : Rat) ^ (-e).toNat)
 
+/-- the least magnitude that `f32` parsing rounds to infinity: 2^128 − 2^103 (half an ulp above `f32::MAX`) -/
+def f32Overflow : Rat := (2 : Rat) ^ 128 - (2 : Rat) ^ 103
+
 def numRat : Num → TNum
-  | .fin neg mant exp => some ((if neg then -1 else 1) * (mant : Rat) * pow10 exp)
+  | .fin neg mant exp =>
+    let v : Rat := (mant : Rat) * pow10 exp
+    if v ≥ f32Overflow then none else some ((if neg then -1 else 1) * v)
   | _ => none
 
 def tadd (a b : TNum) : TNum := a.bind (fun x => b.map (fun y => x + y))
@@ -264,8 +269,36 @@ structure Window where
   rightFin : Option (List TNum)
   deriving Repr
 
-/-- `depth * width > 0.0` on exact values (a NaN operand makes it false) -/
-def prodPos (a b : TNum) : Bool := match a, b with | some x, some y => decide (x * y > 0) | _, _ => false
+/-- a value with its kind of non-finiteness (needed where the code compares: `inf * 1.5 > 0.0` is true, `NaN > 0.0` is not) -/
+inductive XV where
+  | fin (q : Rat)
+  | inf (neg : Bool)
+  | nan
+  deriving Repr
+
+def xvOf : Num → XV
+  | .fin neg mant exp =>
+    let v : Rat := (mant : Rat) * pow10 exp
+    if v ≥ f32Overflow then .inf neg else .fin ((if neg then -1 else 1) * v)
+  | .inf neg => .inf neg
+  | .nan => .nan
+
+/-- `attrs.remove_f32(k).unwrap_or_default()` with the kind of the value kept -/
+def xvAttr (a : Attrs) (k : String) : XV :=
+  match getVal a k with
+  | some (.num n) => xvOf n
+  | _ => .fin 0
+
+/-- `depth * width > 0.0` in IEEE arithmetic: `inf * 0` is NaN, NaN compares false -/
+def xvProdPos : XV → XV → Bool
+  | .fin x, .fin y => decide (x * y > 0)
+  | .fin x, .inf n => if x = 0 then false else decide (x > 0) != n
+  | .inf n, .fin x => if x = 0 then false else decide (x > 0) != n
+  | .inf m, .inf n => m == n
+  | _, _ => false
+
+/-- `depth * width > 0.0` on the attributes `kd`, `kw` -/
+def prodPos (a : Attrs) (kd kw : String) : Bool := xvProdPos (xvAttr a kd) (xvAttr a kw)
 
 def windowOf (b : Block) : Except String Window :=
   let a := b.attrs
@@ -287,9 +320,9 @@ def windowOf (b : Block) : Except String Window :=
         let lf := [n "LEFT-FIN-A", n "LEFT-FIN-B", n "LEFT-FIN-D", n "LEFT-FIN-H"]
         let rf := [n "RIGHT-FIN-A", n "RIGHT-FIN-B", n "RIGHT-FIN-D", n "RIGHT-FIN-H"]
         .ok { name := b.name, wall := wall, cons := cons, x := x, y := y, height := h, width := w, setback := sb, coefs := coefs,
-              overhang := if prodPos (n "OVERHANG-D") (n "OVERHANG-W") then some ov else none,
-              leftFin := if prodPos (n "LEFT-FIN-D") (n "LEFT-FIN-H") then some lf else none,
-              rightFin := if prodPos (n "RIGHT-FIN-D") (n "RIGHT-FIN-H") then some rf else none }
+              overhang := if prodPos a "OVERHANG-D" "OVERHANG-W" then some ov else none,
+              leftFin := if prodPos a "LEFT-FIN-D" "LEFT-FIN-H" then some lf else none,
+              rightFin := if prodPos a "RIGHT-FIN-D" "RIGHT-FIN-H" then some rf else none }
     | .error e, _, _, _, _, _ => .error e
     | _, .error e, _, _, _, _ => .error e
     | _, _, .error e, _, _, _ => .error e
